@@ -173,6 +173,52 @@ pub fn shrink_case(case: &ProgCase, key: &str, prop: &str, budget: usize) -> Pro
             break;
         }
     }
+    // make the schedule explicit: replace the seeded policy by the script of offered-list indices the
+    // failing execution took, then shrink the script towards "take the first offered task"
+    let run = run_case(&best);
+    if let Some(ex) = run.rt.execs.first() {
+        let script: Vec<u32> = ex
+            .decisions()
+            .filter_map(|d| d.chosen.and_then(|c| d.offered.iter().position(|o| *o == c)).map(|i| i as u32))
+            .collect();
+        let mut c = best.clone();
+        c.sim.script = script;
+        c.sim.policy = Policy::First;
+        c.sim.spurious = true;
+        c.sim.execs = 1;
+        let reproduces = |c: &ProgCase| {
+            let run = run_case(c);
+            let mut st = vec![];
+            findings_of(c, &run, prop, &mut st).iter().any(|f| f.key == key)
+        };
+        if reproduces(&c) {
+            best = c;
+            // drop trailing choices, then zero individual ones
+            while !best.sim.script.is_empty() && tries < budget {
+                tries += 1;
+                let mut c = best.clone();
+                c.sim.script.pop();
+                if reproduces(&c) {
+                    best = c;
+                } else {
+                    break;
+                }
+            }
+            let mut i = best.sim.script.len();
+            while i > 0 && tries < budget {
+                i -= 1;
+                if best.sim.script[i] == 0 {
+                    continue;
+                }
+                tries += 1;
+                let mut c = best.clone();
+                c.sim.script[i] = 0;
+                if reproduces(&c) {
+                    best = c;
+                }
+            }
+        }
+    }
     best
 }
 
